@@ -93,6 +93,54 @@ def disjuncts(t):
     return [t]
 
 
+_INV = {ast.Eq: ast.NotEq, ast.NotEq: ast.Eq, ast.Lt: ast.GtE, ast.GtE: ast.Lt, ast.Gt: ast.LtE, ast.LtE: ast.Gt, ast.Is: ast.IsNot, ast.IsNot: ast.Is,
+        ast.In: ast.NotIn, ast.NotIn: ast.In}
+_SWAP = {ast.Lt: ast.Gt, ast.Gt: ast.Lt, ast.LtE: ast.GtE, ast.GtE: ast.LtE, ast.Eq: ast.Eq, ast.NotEq: ast.NotEq}
+
+
+def _intlike(e):
+    """len(...) or a remainder: a non-negative integer, whose truth value is `!= 0`."""
+    return (isinstance(e, ast.Call) and isinstance(e.func, ast.Name) and e.func.id == 'len') or (isinstance(e, ast.BinOp) and isinstance(e.op, ast.Mod))
+
+
+def canon_truth(t):
+    """One canonical node for the equivalent spellings of a test: `not (a < b)` = `a >= b`; a constant on the left moves to the
+    right; for a length or remainder E, `E != 0` / `E > 0` / `E >= 1` = `E` and `E == 0` / `E < 1` / `E <= 0` = `not E`."""
+    if isinstance(t, ast.UnaryOp) and isinstance(t.op, ast.Not):
+        inner = canon_truth(t.operand)
+        if isinstance(inner, ast.UnaryOp) and isinstance(inner.op, ast.Not):
+            return inner.operand
+        if isinstance(inner, ast.Compare) and len(inner.ops) == 1 and type(inner.ops[0]) in _INV:
+            return canon_truth(ast.Compare(left=inner.left, ops=[_INV[type(inner.ops[0])]()], comparators=inner.comparators))
+        return ast.UnaryOp(op=ast.Not(), operand=inner)
+    if isinstance(t, ast.BoolOp):
+        return ast.BoolOp(op=t.op, values=[canon_truth(v) for v in t.values])
+    if isinstance(t, ast.Compare) and len(t.ops) == 1:
+        a, op, b = t.left, type(t.ops[0]), t.comparators[0]
+        if isinstance(a, ast.Constant) and not isinstance(b, ast.Constant) and op in _SWAP:
+            a, b, op = b, a, _SWAP[op]
+        if _intlike(a) and isinstance(b, ast.Constant) and type(b.value) is int:
+            k = b.value
+            if (op, k) in ((ast.NotEq, 0), (ast.Gt, 0), (ast.GtE, 1)):
+                return a
+            if (op, k) in ((ast.Eq, 0), (ast.Lt, 1), (ast.LtE, 0)):
+                return ast.UnaryOp(op=ast.Not(), operand=a)
+        return ast.Compare(left=a, ops=[op()], comparators=[b])
+    return t
+
+
+def canon_text(t):
+    """Text of canon_truth(t) with the operands of and/or sorted."""
+    c = canon_truth(t)
+
+    def txt(n):
+        if isinstance(n, ast.BoolOp):
+            return '(' + (' or ' if isinstance(n.op, ast.Or) else ' and ').join(sorted(txt(v) for v in n.values)) + ')'
+        return ast.unparse(n)
+    s = txt(c)
+    return s[1:-1] if isinstance(c, ast.BoolOp) else s
+
+
 def find_guard(f, pred, exc=None, before_line=None, dominate_returns=False):
     """An `if <test>: raise X` at the unconditional top level of the function (or nested only under try/with)
     where some disjunct of <test> satisfies ``pred``.  Returns the If node or None."""
@@ -124,6 +172,14 @@ def find_guard(f, pred, exc=None, before_line=None, dominate_returns=False):
             if any(isinstance(y, ast.Name) and y.id in lenalias for y in ast.walk(d)):
                 return raw_pred(_Sub().visit(_copy.deepcopy(d)))
             return False
+
+    inner_pred = pred
+
+    def pred(d, inner_pred=inner_pred):
+        if inner_pred(d):
+            return True
+        c = canon_truth(d)
+        return c is not d and ast.dump(c) != ast.dump(d) and inner_pred(c)
 
     def scan(stmts):
         for s in stmts:
